@@ -307,3 +307,86 @@ def run_queue_key(run, P):
         return None
     solve(f, Env(), on_event, None, None, None, key_fn=lambda e: tuple(sorted((k, v) for k, v in e.atoms.items() if S in k or I in k)), max_envs=128)
     run.require(n[0] >= 1, 'R-QUEUE-KEY: no store through the out-parameter found in %s()' % fname)
+
+
+# ---------------------------------------------------------------------------------------------------------------
+def run_waitack(run, P):
+    """R-RETRANS (queue admission): coap_retransmit() re-sends whatever sits in the send queue with back-off unless the node
+    is flagged is_mcast (one delayed transmission, then deletion).  So a node may be handed to coap_wait_ack() only
+      - with its PDU known to be Confirmable on the path (N->pdu->type == CON, or P->type == CON for the P stored in N->pdu), or
+      - with N->is_mcast = 1 assigned on the path.
+    A Non-confirmable response queued without the flag is transmitted MAX_RETRANSMIT + 1 times: several replies to one
+    request datagram."""
+    run.rule('R-RETRANS')
+    CON = P.const_named('COAP_MESSAGE_CON')
+    WAIT = 'coap_wait_ack'
+    n = 0
+    for f in sorted(P.lib_funcs(), key=lambda f: f['name']):
+        sites = [ev for b, ev in P.events(f) if ev['e'].get('k') == 'call' and ev['e'].get('fn') == WAIT and len(ev['e'].get('a', [])) == 3]
+        if not sites:
+            continue
+        name = f['name']
+        nodes = set(ap(ev['e']['a'][2]) for ev in sites if ap(ev['e']['a'][2]))
+        typeaps = set()
+        for b in f['blocks']:
+            c = (b.get('term') or {}).get('cond')
+            if c is not None:
+                for x in walk(c):
+                    if isinstance(x, dict) and x.get('k') == 'mem' and x.get('f') == 'type' and ap(x):
+                        typeaps.add(ap(x))
+
+        def is_rule_event(ev):
+            t = ev['e']
+            if any(ev is s for s in sites):
+                return True
+            if t.get('k') == 'asg':
+                l = strip(t['l'])
+                return isinstance(l, dict) and l.get('k') == 'mem' and l.get('f') in ('is_mcast', 'pdu') and ap(l.get('b')) in nodes
+            return False
+        keys, R = relevance(f, is_rule_event, typeaps)
+        R = set(R) | typeaps
+        for b in f['blocks']:
+            c = (b.get('term') or {}).get('cond')
+            if c is not None and any(isinstance(x, dict) and x.get('k') == 'mem' and x.get('f') == 'type' for x in walk(c)):
+                keys = set(keys) | {b['id']}
+
+        def on_event(ev, env, ctx):
+            t = ev['e']
+            if t.get('k') == 'asg' and t.get('op') == '=':
+                l = strip(t['l'])
+                if isinstance(l, dict) and l.get('k') == 'mem' and ap(l.get('b')) in nodes:
+                    nv = ap(l['b'])
+                    if l.get('f') == 'is_mcast':
+                        e = apply_generic(ev, env, R).copy()
+                        mc = dict(env.ts.get('mc', ()))
+                        mc[nv] = const_int(t['r']) == 1
+                        e.ts['mc'] = tuple(sorted(mc.items()))
+                        return [e]
+                    if l.get('f') == 'pdu' and ap(t['r']):
+                        e = apply_generic(ev, env, R).copy()
+                        po = dict(env.ts.get('po', ()))
+                        po[nv] = ap(t['r'])
+                        e.ts['po'] = tuple(sorted(po.items()))
+                        # the type known for the PDU variable is the type of the node's PDU
+                        return [e]
+                return None
+            if any(ev is s for s in sites):
+                nv = ap(t['a'][2])
+                mc = dict(env.ts.get('mc', ())).get(nv)
+                po = dict(env.ts.get('po', ())).get(nv)
+                cands = ['%s->pdu->type' % nv] + (['%s->type' % po] if po else [])
+                con = any(env.intf(a)[0] == env.intf(a)[1] == CON for a in cands)
+                ok = bool(mc) or con
+                run.oblige('R-RETRANS', ok, '%s:wait-ack-admission' % name)
+                if not ok:
+                    run.violation('R-RETRANS', name, ev['loc'], 'queued-non-con-unflagged',
+                                  'a node is handed to coap_wait_ack() on a path that neither knows its PDU to be Confirmable nor set node->is_mcast: coap_retransmit() '
+                                  'will re-send it with back-off like an unacknowledged Confirmable (a Non-confirmable reply goes out several times)', ctx.path())
+            return None
+        for s in sites:
+            n += 1
+            run.instance('R-RETRANS', '%s: coap_wait_ack(%s)' % (name, short(s['e']['a'][2])))
+        ctx = solve(f, Env({'mc': (), 'po': ()}), on_event, None, keys, R,
+                    key_fn=lambda e: (e.ts.get('mc'), e.ts.get('po'), tuple(e.intf(a)[:2] for a in sorted(typeaps))), max_envs=512)
+        run.stats['waitack_solver_steps'] += ctx.steps
+    run.require(n >= 3 or run.fixture_mode, 'R-RETRANS: fewer than 3 call sites of coap_wait_ack() found')
